@@ -346,12 +346,25 @@ Section Sim.
 
   (* ---------- the invocation loop ---------- *)
 
+  Definition core (c : cmd) : bool :=
+    match c with
+    | Append _ _ _ | Prepend _ _ _ | Insert _ _ _ _ | Remove _ _ | Owns _ _ | Empty _ | Invoke _ _
+    | ForEach _ | ForEachIf _ _ | HasL _ _ | HasAny _ | RemoveL _ _ => true
+    | _ => false
+    end.
+
+  Definition core_prog (cs : list cmd) : Prop := Forall (fun c => core c = true) cs.
+  Definition core_behav : Prop := forall c n, core_prog (behav c n).
+
+  (* callbacks only run core commands (no copy/move/swap/destroy from inside a callback) *)
+  Hypothesis Hbehav : core_behav.
+
   Definition SimRec (rec : state -> list cmd -> option state) (srec : sstate -> list cmd -> option sstate) : Prop :=
-    forall st sst cs st', R st sst -> rec st cs = Some st' -> wrapped st' = false ->
+    forall st sst cs st', core_prog cs -> R st sst -> rec st cs = Some st' -> wrapped st' = false ->
       exists sst', srec sst cs = Some sst' /\ R st' sst' /\ Ext st sst st' sst'.
 
   Definition MonoRec (rec : state -> list cmd -> option state) : Prop :=
-    forall st cs st', rec st cs = Some st' -> wrapped st = true -> wrapped st' = true.
+    forall st cs st', core_prog cs -> rec st cs = Some st' -> wrapped st = true -> wrapped st' = true.
 
   Lemma s_invoke_skip srec sst g sgr pre rest a :
     s_get_group sst g = Some sgr -> filter (alive sgr) pre = [] ->
@@ -454,7 +467,7 @@ Section Sim.
     visit chkR chkI chkO behav rec m st l g n nd acc = Some (st', acc', b) -> wrapped st = true -> wrapped st' = true.
   Proof.
     intros H Hw. destruct m; simpl in H.
-    - destruct (rec _ _) as [st2|] eqn:Er; [|discriminate]. inversion H; subst. apply (HM _ _ _ Er). exact Hw.
+    - destruct (rec _ _) as [st2|] eqn:Er; [|discriminate]. inversion H; subst. apply (HM _ _ _ (Hbehav _ _) Er). exact Hw.
     - inversion H; subst; exact Hw.
     - inversion H; subst; exact Hw.
     - destruct (Nat.eqb (cb nd) c); inversion H; subst; exact Hw.
@@ -554,7 +567,7 @@ Section Sim.
         assert (Eact : s_get_act sst1 (cb nd) = get_act st1 (cb nd)).
         { unfold s_get_act, get_act, sst1, st1. simpl. rewrite Nat.eqb_refl. unfold s_get_act, get_act. simpl.
           rewrite (r_acts _ _ _ HR). reflexivity. }
-        destruct (HS st1 sst1 _ st2 HR1 Er Hw2) as [sst2 [Es2 [HR2 Ex12]]].
+        destruct (HS st1 sst1 _ st2 (Hbehav _ _) HR1 Er Hw2) as [sst2 [Es2 [HR2 Ex12]]].
         set (sst3 := s_set_pins sst2 (spins sst)).
         assert (HR3 : R st3 sst3).
         { apply (R_irrel W st2 sst2); auto; simpl.
@@ -621,5 +634,466 @@ Section Sim.
         apply (IH st sst g (nxt nd) capt acc todo st' acc' b HR); auto.
         apply (frame_step_skip st sst g n capt todo gr nd HR HF F1 Hn).
         destruct (visit_cond_false_cases _ _ Ev) as [X|[_ X]]; [left; intro Y; apply Y; exact X|right; exact X].
+  Qed.
+
+  (* ---------- enumerations that do not run callbacks: forEach, forEachIf, hasListener, hasAnyListener ---------- *)
+
+  Definition pvisit (m : vmode) (cbn acc : nat) : option (option ev * nat * bool) :=
+    match m with
+    | VEach => Some (Some (EVisit cbn), acc, true)
+    | VEachIf k => Some (Some (EVisit cbn), S acc, Nat.ltb (S acc) k)
+    | VHas c => if Nat.eqb cbn c then Some (None, 1, false) else Some (None, acc, true)
+    | VAny => Some (None, 1, false)
+    | _ => None
+    end.
+
+  Definition olog (st : state) (e : option ev) : state := match e with Some x => log st x | None => st end.
+  Definition s_olog (st : sstate) (e : option ev) : sstate := match e with Some x => s_log st x | None => st end.
+
+  Fixpoint pfold (m : vmode) (cbs : list nat) (acc : nat) (st : sstate) : sstate * nat * bool :=
+    match cbs with
+    | [] => (st, acc, true)
+    | c :: t =>
+        match pvisit m c acc with
+        | Some (e, acc', cont) => if cont then pfold m t acc' (s_olog st e) else (s_olog st e, acc', false)
+        | None => (st, acc, true)
+        end
+    end.
+
+  Lemma visit_pure rec m st l g n nd acc e acc' cont :
+    pvisit m (cb nd) acc = Some (e, acc', cont) ->
+    visit chkR chkI chkO behav rec m (set_pins st ((g, n) :: pins st)) l g n nd acc
+    = Some (set_pins (olog st e) ((g, n) :: pins st), acc', cont).
+  Proof.
+    destruct m; simpl; intros H; try discriminate; try (inversion H; subst; reflexivity).
+    destruct (Nat.eqb (cb nd) c); inversion H; subst; reflexivity.
+  Qed.
+
+  Lemma olog_sim st sst e : R st sst -> R (olog st e) (s_olog sst e) /\ Ext st sst (olog st e) (s_olog sst e).
+  Proof. intros HR. destruct e; simpl; [apply log_sim; exact HR|split; [exact HR|apply ext_refl]]. Qed.
+
+  Definition cbs_of (h : list node) (ns : list nat) : list nat :=
+    map (fun n => match nth_error h n with Some nd => cb nd | None => 0 end) ns.
+
+  Lemma trav_pure rec m l g capt gr ids :
+    (forall c a, pvisit m c a <> None) ->
+    GInv gr ids ->
+    forall k st sst c mm acc st' acc' b,
+      R st sst -> get_group st g = Some gr -> first_live (heap gr) c mm ->
+      (forall y, In y (sfrom_o mm ids) -> oldb (heap gr) capt y = true) ->
+      trav chkR chkI chkO behav rec k m st l g c capt acc = Some (st', acc', b) ->
+      exists sst', pfold m (cbs_of (heap gr) (sfrom_o mm ids)) acc sst = (sst', acc', b) /\ R st' sst' /\ Ext st sst st' sst'
+                   /\ get_group st' g = Some gr.
+  Proof.
+    intros Hpure G. induction k as [|k IH]; intros st sst c mm acc st' acc' b HR Hg FL Hold H.
+    - destruct c as [n|]; simpl in H; [discriminate|]. inversion H; subst. inversion FL; subst. simpl.
+      exists sst. split; [reflexivity|]. split; [exact HR|]. split; [apply ext_refl|exact Hg].
+    - destruct c as [n|].
+      2:{ simpl in H. inversion H; subst. inversion FL; subst. simpl.
+          exists sst. split; [reflexivity|]. split; [exact HR|]. split; [apply ext_refl|exact Hg]. }
+      simpl in H. rewrite Hg in H.
+      assert (exists nd, nth_error (heap gr) n = Some nd) as [nd Hn] by (inversion FL; eauto).
+      rewrite Hn in H.
+      destruct (live_dec nd) as [Hl|Hd].
+      + assert (mm = Some n). { apply (first_live_fun _ _ _ FL). eapply fl_live; eauto. } subst mm.
+        assert (Hin := gi_live _ _ G n nd Hn Hl). destruct (in_split _ _ Hin) as [a0 [b0 E0]].
+        destruct (member_next gr _ a0 n b0 G E0) as [nd' [A1 [A2 [A3 [A4 [A5 A6]]]]]].
+        rewrite Hn in A1; inversion A1; subst nd'.
+        simpl sfrom_o in *. rewrite A6 in *.
+        assert (Ho : oldb (heap gr) capt n = true) by (apply Hold; left; reflexivity).
+        assert (Ev : GenCL.visit_cond (ctr nd) capt = true).
+        { unfold GenCL.visit_cond. unfold oldb in Ho. rewrite Hn in Ho. rewrite Ho, andb_true_r.
+          apply negb_true_iff. apply N.eqb_neq. exact Hl. }
+        rewrite Ev in H. simpl cbs_of. rewrite Hn. simpl pfold.
+        destruct (pvisit m (cb nd) acc) as [[[e a1] cont]|] eqn:Ep; [|exfalso; apply (Hpure _ _ Ep)].
+        rewrite (visit_pure rec m st l g n nd acc e a1 cont Ep) in H. simpl in H.
+        assert (Est : set_pins (set_pins (olog st e) ((g, n) :: pins st)) (pins st) = olog st e).
+        { destruct e; destruct st; reflexivity. }
+        rewrite Est in H.
+        destruct (olog_sim st sst e HR) as [HR1 Ex1].
+        assert (Hg1 : get_group (olog st e) g = Some gr) by (destruct e; exact Hg).
+        destruct cont.
+        * rewrite Hg1, Hn in H. rewrite A3 in H.
+          destruct (IH (olog st e) (s_olog sst e) (hd_error b0) (hd_error b0) a1 st' acc' b HR1 Hg1 A4) as [sst' [P1 [P2 [P3 P4]]]]; auto.
+          { rewrite A5. intros y Hy. apply Hold. right; exact Hy. }
+          rewrite A5 in P1. exists sst'. split; [exact P1|]. split; [exact P2|]. split; [|exact P4].
+          apply (ext_trans W st sst (olog st e) (s_olog sst e) st' sst' HR HR1 Ex1 P3).
+        * inversion H; subst. exists (s_olog sst e). auto.
+      + assert (Ev : GenCL.visit_cond (ctr nd) capt = false).
+        { unfold GenCL.visit_cond. apply andb_false_iff. left. apply negb_false_iff. apply N.eqb_eq.
+          destruct (N.eq_dec (ctr nd) GenCL.removed_marker) as [X|X]; [exact X|exfalso; apply Hd; exact X]. }
+        rewrite Ev in H.
+        assert (FL' : first_live (heap gr) (nxt nd) mm).
+        { inversion FL; subst; match goal with Hq : nth_error (heap gr) n = Some ?x |- _ => rewrite Hn in Hq; inversion Hq; subst end;
+            [contradiction|assumption]. }
+        apply (IH st sst (nxt nd) mm acc st' acc' b HR Hg FL' Hold H).
+  Qed.
+
+  (* removeListener: stop at the first entry holding callback c and remove it *)
+  Fixpoint first_node (h : list node) (c : nat) (ns : list nat) : option nat :=
+    match ns with
+    | [] => None
+    | n :: t => match nth_error h n with
+                | Some nd => if Nat.eqb (cb nd) c then Some n else first_node h c t
+                | None => first_node h c t
+                end
+    end.
+
+  Lemma trav_removel rec c0 l o g capt gr ids :
+    GInv gr ids -> lg o = g ->
+    forall k st sst c mm acc st' acc' b,
+      R st sst -> get_list st l = Some o -> get_group st g = Some gr -> first_live (heap gr) c mm ->
+      (forall y, In y (sfrom_o mm ids) -> oldb (heap gr) capt y = true) ->
+      trav chkR chkI chkO behav rec k (VRemoveL c0) st l g c capt acc = Some (st', acc', b) ->
+      match first_node (heap gr) c0 (sfrom_o mm ids) with
+      | Some x => In x ids /\ acc' = 1 /\ st' = put_group st g (g_unlink gr x)
+      | None => st' = st /\ acc' = acc
+      end.
+  Proof.
+    intros G Hlg. induction k as [|k IH]; intros st sst c mm acc st' acc' b HR Hl Hg FL Hold H.
+    - destruct c as [n|]; simpl in H; [discriminate|]. inversion H; subst. inversion FL; subst. simpl. auto.
+    - destruct c as [n|].
+      2:{ simpl in H. inversion H; subst. inversion FL; subst. simpl. auto. }
+      simpl in H. rewrite Hg in H.
+      assert (exists nd, nth_error (heap gr) n = Some nd) as [nd Hn] by (inversion FL; eauto).
+      rewrite Hn in H.
+      destruct (live_dec nd) as [Hlv|Hd].
+      + assert (mm = Some n). { apply (first_live_fun _ _ _ FL). eapply fl_live; eauto. } subst mm.
+        assert (Hin := gi_live _ _ G n nd Hn Hlv). destruct (in_split _ _ Hin) as [a0 [b0 E0]].
+        destruct (member_next gr _ a0 n b0 G E0) as [nd' [A1 [A2 [A3 [A4 [A5 A6]]]]]].
+        rewrite Hn in A1; inversion A1; subst nd'.
+        simpl sfrom_o in *. rewrite A6 in *.
+        assert (Ho : oldb (heap gr) capt n = true) by (apply Hold; left; reflexivity).
+        assert (Ev : GenCL.visit_cond (ctr nd) capt = true).
+        { unfold GenCL.visit_cond. unfold oldb in Ho. rewrite Hn in Ho. rewrite Ho, andb_true_r.
+          apply negb_true_iff. apply N.eqb_neq. exact Hlv. }
+        rewrite Ev in H. simpl first_node. rewrite Hn. simpl in H.
+        destruct (Nat.eqb (cb nd) c0) eqn:Ec.
+        * (* found: remove it through its own handle *)
+          unfold do_remove_handle in H. change (get_list (set_pins st ((g, n) :: pins st)) l) with (get_list st l) in H.
+          rewrite Hl in H. unfold classify in H.
+          change (get_group (set_pins st ((g, n) :: pins st)) g) with (get_group st g) in H. rewrite Hg in H.
+          rewrite Hlg, Nat.eqb_refl, Hn in H.
+          unfold GenCL.remove_checks_removed, GenCL.insert_checks_removed, GenCL.owns_checks_removed in H. simpl in H.
+          assert (Hu : negb (ctr nd =? GenCL.removed_marker)%N = true) by (apply negb_true_iff; apply N.eqb_neq; exact Hlv).
+          unfold usable in H. rewrite Hu in H. unfold with_group in H.
+          change (get_group (set_pins st ((g, n) :: pins st)) g) with (get_group st g) in H. rewrite Hg in H.
+          inversion H; subst. split; [exact Hin|]. split; [reflexivity|]. destruct st; reflexivity.
+        * assert (Est : set_pins (set_pins st ((g, n) :: pins st)) (pins st) = st) by (destruct st; reflexivity).
+          rewrite Est, Hg, Hn, A3 in H.
+          assert (X := IH st sst (hd_error b0) (hd_error b0) acc st' acc' b HR Hl Hg A4).
+          rewrite A5 in X. apply X; [|exact H]. intros y Hy. apply Hold. right; exact Hy.
+      + assert (Ev : GenCL.visit_cond (ctr nd) capt = false).
+        { unfold GenCL.visit_cond. apply andb_false_iff. left. apply negb_false_iff. apply N.eqb_eq.
+          destruct (N.eq_dec (ctr nd) GenCL.removed_marker) as [X|X]; [exact X|exfalso; apply Hd; exact X]. }
+        rewrite Ev in H.
+        assert (FL' : first_live (heap gr) (nxt nd) mm).
+        { inversion FL; subst; match goal with Hq : nth_error (heap gr) n = Some ?x |- _ => rewrite Hn in Hq; inversion Hq; subst end;
+            [contradiction|assumption]. }
+        apply (IH st sst (nxt nd) mm acc st' acc' b HR Hl Hg FL' Hold H).
+  Qed.
+
+  (* ---------- traversals started at the head ---------- *)
+
+  Lemma sfrom_o_head ids : sfrom_o (hd_error ids) ids = ids.
+  Proof. destruct ids as [|x r]; simpl; [reflexivity|]. rewrite Nat.eqb_refl. reflexivity. Qed.
+
+  Lemma head_first_live gr ids : GInv gr ids -> first_live (heap gr) (ghead gr) (hd_error ids).
+  Proof.
+    intros G. rewrite (gi_head _ _ G). destruct ids as [|x r]; simpl; [constructor|].
+    destruct (lchain_in _ _ _ (gi_chain _ _ G) x (or_introl eq_refl)) as [nd [A B]]. eapply fl_live; eauto.
+  Qed.
+
+  Lemma all_old gr sgr cur : GRel gr sgr cur -> forall y, In y (map fst (ents sgr)) -> oldb (heap gr) cur y = true.
+  Proof.
+    intros HG y Hy. destruct (ginv_in_heap _ _ (gr_inv _ _ _ HG) y Hy) as [nd Hn].
+    unfold oldb. rewrite Hn. apply N.leb_le. apply (gr_ctr _ _ _ HG y nd Hn).
+  Qed.
+
+  Lemma cbs_of_ents gr sgr cur : GRel gr sgr cur -> cbs_of (heap gr) (map fst (ents sgr)) = map snd (ents sgr).
+  Proof.
+    intros HG. assert (H := gr_cb _ _ _ HG). revert H. generalize (ents sgr) as es.
+    induction es as [|[e c] t IH]; intros H; simpl; [reflexivity|].
+    destruct (H e c (or_introl eq_refl)) as [nd [A B]]. rewrite A, B. f_equal. apply IH.
+    intros e' c' X. apply H. right; exact X.
+  Qed.
+
+  Lemma filter_all_true {A} (f : A -> bool) l : (forall x, In x l -> f x = true) -> filter f l = l.
+  Proof.
+    induction l as [|x l IH]; intros H; simpl; [reflexivity|].
+    rewrite (H x (or_introl eq_refl)). f_equal. apply IH. intros y Y; apply H; right; exact Y.
+  Qed.
+
+  Lemma initial_frame st sst l o gr sgr :
+    R st sst -> get_list st l = Some o -> get_group st (lg o) = Some gr -> s_get_group sst (lg o) = Some sgr ->
+    GRel gr sgr (lcur o) ->
+    Frame st sst (lg o) (ghead gr) (lcur o) (ents sgr).
+  Proof.
+    intros HR Hl Hg Hsg HG. exists gr, sgr, (hd_error (map fst (ents sgr))), l, o.
+    split; [exact Hg|]. split; [exact Hsg|]. split; [apply head_first_live; apply (gr_inv _ _ _ HG)|].
+    split; [|split; [apply (gr_cb _ _ _ HG)|repeat split; auto; lia]].
+    rewrite sfrom_o_head. rewrite (filter_all_true _ _ (all_old gr sgr (lcur o) HG)).
+    f_equal. symmetry. apply filter_all_true. intros [e c] X. unfold alive; simpl. apply has_ent_in.
+    apply in_map_iff. exists (e, c). auto.
+  Qed.
+
+  (* the spec's enumerations are the same folds *)
+  Lemma pfold_each es : forall st acc,
+    pfold VEach (map snd es) acc st = (fold_left (fun s (e : nat * nat) => s_log s (EVisit (snd e))) es st, acc, true).
+  Proof. induction es as [|[e c] t IH]; intros st acc; simpl; [reflexivity|]. apply IH. Qed.
+
+  Lemma pfold_eachif k es : forall st acc,
+    pfold (VEachIf k) (map snd es) acc st =
+    (fst (visit_upto st es acc k), (if snd (visit_upto st es acc k) then acc + length es else snd (fst (pfold (VEachIf k) (map snd es) acc st))), snd (visit_upto st es acc k)).
+  Proof.
+    induction es as [|[e c] t IH]; intros st acc; simpl.
+    - rewrite Nat.add_0_r. reflexivity.
+    - destruct (Nat.ltb (S acc) k) eqn:E.
+      + rewrite IH. destruct (visit_upto (s_log st (EVisit c)) t (S acc) k) as [s1 b1] eqn:Ev. simpl.
+        destruct b1; [f_equal; f_equal; lia|reflexivity].
+      + reflexivity.
+  Qed.
+
+  Lemma pfold_has c es : forall st,
+    pfold (VHas c) (map snd es) 0 st =
+    (st, (match first_cb c es with Some _ => 1 | None => 0 end), (match first_cb c es with Some _ => false | None => true end)).
+  Proof.
+    induction es as [|[e c'] t IH]; intros st; simpl; [reflexivity|].
+    destruct (Nat.eqb c' c); simpl; [reflexivity|apply IH].
+  Qed.
+
+  Lemma first_node_first_cb gr sgr cur c :
+    GRel gr sgr cur -> first_node (heap gr) c (map fst (ents sgr)) = first_cb c (ents sgr).
+  Proof.
+    intros HG. assert (H := gr_cb _ _ _ HG). revert H. generalize (ents sgr) as es.
+    induction es as [|[e c'] t IH]; intros H; simpl; [reflexivity|].
+    destruct (H e c' (or_introl eq_refl)) as [nd [A B]]. rewrite A, B.
+    destruct (Nat.eqb c' c); [reflexivity|]. apply IH. intros e' c'' X. apply H. right; exact X.
+  Qed.
+
+  (* ---------- one command ---------- *)
+
+  Lemma with_log st sst st1 sst1 e :
+    R st sst -> R st1 sst1 -> Ext st sst st1 sst1 ->
+    R (log st1 e) (s_log sst1 e) /\ Ext st sst (log st1 e) (s_log sst1 e).
+  Proof.
+    intros HR HR1 Ex. destruct (log_sim st1 sst1 e HR1) as [A B]. split; [exact A|].
+    apply (ext_trans W st sst st1 sst1 _ _ HR HR1 Ex B).
+  Qed.
+
+  Lemma traverse_pure_sim rec m k st sst l st' acc' b :
+    (forall c a, pvisit m c a <> None) ->
+    R st sst -> traverse chkR chkI chkO behav rec k m st l = Some (st', acc', b) ->
+    exists es sst', s_content sst l = Some es /\ pfold m (map snd es) 0 sst = (sst', acc', b) /\
+                    R st' sst' /\ Ext st sst st' sst'.
+  Proof.
+    intros Hp HR H. unfold traverse in H. unfold s_content.
+    destruct (get_list st l) as [o|] eqn:Hl; [|discriminate].
+    destruct (r_grp _ _ _ HR l o Hl) as [gr [sgr [Hg [Hsg [HG _]]]]].
+    rewrite Hg in H. rewrite (r_get_list W st sst l HR), Hl. simpl. rewrite Hsg.
+    destruct (trav_pure rec m l (lg o) (lcur o) gr _ Hp (gr_inv _ _ _ HG) k st sst (ghead gr) _ 0 st' acc' b HR Hg
+                (head_first_live _ _ (gr_inv _ _ _ HG))) as [sst' [P1 [P2 [P3 _]]]]; auto.
+    - rewrite sfrom_o_head. apply (all_old gr sgr (lcur o) HG).
+    - rewrite sfrom_o_head, (cbs_of_ents gr sgr (lcur o) HG) in P1. exists (ents sgr), sst'. auto.
+  Qed.
+
+  Lemma step_sim rec srec k st sst c st' (HS : SimRec rec srec) (HM : MonoRec rec) :
+    R st sst -> core c = true -> step W chkR chkI chkO behav rec k st c = Some st' -> wrapped st' = false ->
+    exists sst', s_step behav srec sst c = Some sst' /\ R st' sst' /\ Ext st sst st' sst'.
+  Proof.
+    intros HR Hc H Hw. destruct c; try discriminate; simpl in H.
+    - apply (append_sim st sst l c h st' HR H Hw).
+    - apply (prepend_sim st sst l c h st' HR H Hw).
+    - destruct (insert_sim st sst l c hb h st' HR H Hw) as [sst' [A B]]. exists sst'. split; [|exact B]. exact A.
+    - (* Remove *)
+      destruct (do_remove_handle chkR chkI chkO st l (get_reg st h)) as [[st1 b]|] eqn:Ed; [|discriminate].
+      inversion H; subst st'.
+      assert (Ereg : s_get_reg sst = get_reg st).
+      { unfold s_get_reg, get_reg. rewrite (r_regs _ _ _ HR). reflexivity. }
+      destruct (remove_handle_sim st sst l _ st1 b HR Ereg Ed) as [sst1 [A [B C]]].
+      simpl. rewrite Ereg, A. eexists. split; [reflexivity|]. apply (with_log st sst st1 sst1 _ HR B C).
+    - (* Owns *)
+      destruct (do_owns chkR chkI chkO st l (get_reg st h)) as [b|] eqn:Ed; [|discriminate].
+      inversion H; subst st'.
+      destruct (owns_sim st sst l _ b HR Ed) as [g [sgr [A [B C]]]].
+      assert (Ereg : s_get_reg sst h = get_reg st h).
+      { unfold s_get_reg, get_reg. rewrite (r_regs _ _ _ HR). reflexivity. }
+      simpl. rewrite A, B, Ereg.
+      destruct (s_classify sst g sgr (get_reg st h)); try contradiction; subst b;
+        (eexists; split; [reflexivity|apply log_sim; exact HR]).
+    - (* Empty *)
+      destruct (do_empty st l) as [b|] eqn:Ed; [|discriminate]. inversion H; subst st'.
+      destruct (empty_sim st sst l b HR Ed) as [es [A B]]. simpl. rewrite A. subst b.
+      eexists; split; [reflexivity|apply log_sim; exact HR].
+    - (* Invoke *)
+      destruct (traverse chkR chkI chkO behav rec k (VInvoke a) st l) as [[[st1 a1] b1]|] eqn:Et; [|discriminate].
+      inversion H; subst st'. unfold traverse in Et.
+      destruct (get_list st l) as [o|] eqn:Hl; [|discriminate].
+      destruct (r_grp _ _ _ HR l o Hl) as [gr [sgr [Hg [Hsg [HG _]]]]].
+      rewrite Hg in Et. simpl. rewrite (r_get_list W st sst l HR), Hl. simpl. rewrite Hsg.
+      apply (trav_invoke_sim rec srec a l HS HM k st sst (lg o) (ghead gr) (lcur o) 0 (ents sgr) st1 a1 b1 HR); auto.
+      apply (initial_frame st sst l o gr sgr HR Hl Hg Hsg HG).
+    - (* ForEach *)
+      destruct (traverse chkR chkI chkO behav rec k VEach st l) as [[[st1 a1] b1]|] eqn:Et; [|discriminate].
+      inversion H; subst st'.
+      destruct (traverse_pure_sim rec VEach k st sst l st1 a1 b1) as [es [sst' [A [B [C D]]]]]; auto.
+      { intros c a; discriminate. }
+      simpl. rewrite A. rewrite pfold_each in B. inversion B; subst. eexists; split; [reflexivity|auto].
+    - (* ForEachIf *)
+      destruct (traverse chkR chkI chkO behav rec k (VEachIf k0) st l) as [[[st1 a1] b1]|] eqn:Et; [|discriminate].
+      inversion H; subst st'.
+      destruct (traverse_pure_sim rec (VEachIf k0) k st sst l st1 a1 b1) as [es [sst' [A [B [C D]]]]]; auto.
+      { intros c a; discriminate. }
+      simpl. rewrite A. rewrite pfold_eachif in B.
+      destruct (visit_upto sst es 0 k0) as [s1 bb] eqn:Ev. simpl in B. inversion B; subst.
+      eexists; split; [reflexivity|]. apply (with_log _ _ _ _ _ HR C D).
+    - (* HasL *)
+      destruct (traverse chkR chkI chkO behav rec k (VHas c) st l) as [[[st1 a1] b1]|] eqn:Et; [|discriminate].
+      inversion H; subst st'.
+      destruct (traverse_pure_sim rec (VHas c) k st sst l st1 a1 b1) as [es [sst' [A [B [C D]]]]]; auto.
+      { intros c1 a; simpl; destruct (Nat.eqb c1 c); discriminate. }
+      simpl. rewrite A. rewrite pfold_has in B. inversion B; subst.
+      assert (E : Nat.eqb (match first_cb c es with Some _ => 1 | None => 0 end) 1 = match first_cb c es with Some _ => true | None => false end)
+        by (destruct (first_cb c es); reflexivity).
+      rewrite E. eexists; split; [reflexivity|]. apply (with_log _ _ _ _ _ HR C D).
+    - (* HasAny *)
+      destruct (traverse chkR chkI chkO behav rec k VAny st l) as [[[st1 a1] b1]|] eqn:Et; [|discriminate].
+      inversion H; subst st'.
+      destruct (traverse_pure_sim rec VAny k st sst l st1 a1 b1) as [es [sst' [A [B [C D]]]]]; auto.
+      { intros c1 a; discriminate. }
+      simpl. rewrite A. destruct es as [|[e c1] t]; simpl in B; inversion B; subst;
+        (eexists; split; [reflexivity|apply (with_log _ _ _ _ _ HR C D)]).
+    - (* RemoveL *)
+      destruct (traverse chkR chkI chkO behav rec k (VRemoveL c) st l) as [[[st1 a1] b1]|] eqn:Et; [|discriminate].
+      inversion H; subst st'. unfold traverse in Et.
+      destruct (get_list st l) as [o|] eqn:Hl; [|discriminate].
+      destruct (r_grp _ _ _ HR l o Hl) as [gr [sgr [Hg [Hsg [HG _]]]]].
+      rewrite Hg in Et. simpl. rewrite (r_get_list W st sst l HR), Hl. simpl. rewrite Hsg.
+      assert (X := trav_removel rec c l o (lg o) (lcur o) gr _ (gr_inv _ _ _ HG) eq_refl k st sst (ghead gr) _ 0 st1 a1 b1 HR Hl Hg
+                     (head_first_live _ _ (gr_inv _ _ _ HG))).
+      rewrite sfrom_o_head in X. specialize (X (all_old gr sgr (lcur o) HG) Et).
+      rewrite (first_node_first_cb gr sgr (lcur o) c HG) in X.
+      destruct (first_cb c (ents sgr)) as [x|].
+      + destruct X as [Hin [-> ->]].
+        destruct (remove_sim W st sst l o gr sgr x HR Hl Hg Hsg Hin) as [A B].
+        eexists; split; [reflexivity|]. apply (with_log st sst _ _ _ HR A B).
+      + destruct X as [-> ->]. eexists; split; [reflexivity|apply log_sim; exact HR].
+  Qed.
+
+  (* ---------- the ghost flag is monotone along every step ---------- *)
+
+  Lemma next_counter_mono st l st1 k : next_counter W st l = Some (st1, k) -> wrapped st = true -> wrapped st1 = true.
+  Proof.
+    unfold next_counter. intros H Hw. destruct (get_list st l) as [o|]; [|discriminate].
+    destruct (GenCL.wrap_test _).
+    - destruct (get_group st (lg o)); [|discriminate]. inversion H; reflexivity.
+    - inversion H; subst. exact Hw.
+  Qed.
+
+  Lemma alloc_node_mono st l c st1 g n : alloc_node W st l c = Some (st1, g, n) -> wrapped st = true -> wrapped st1 = true.
+  Proof.
+    unfold alloc_node. intros H Hw. destruct (next_counter W st l) as [[s1 k]|] eqn:En; [|discriminate].
+    assert (X := next_counter_mono _ _ _ _ En Hw).
+    destruct (get_list s1 l) as [o|]; [|discriminate]. destruct (get_group s1 (lg o)); [|discriminate].
+    unfold g_alloc in H. inversion H; subst. exact X.
+  Qed.
+
+  Lemma with_group_wrapped st g f st1 : with_group st g f = Some st1 -> wrapped st1 = wrapped st.
+  Proof. unfold with_group. destruct (get_group st g); intros H; inversion H; reflexivity. Qed.
+
+  Lemma do_append_mono st l c h st' : do_append W st l c h = Some st' -> wrapped st = true -> wrapped st' = true.
+  Proof.
+    unfold do_append. intros H Hw. destruct (alloc_node W st l c) as [[[s1 g] n]|] eqn:Ea; [|discriminate].
+    destruct (with_group s1 g _) as [s2|] eqn:Ew; [|discriminate]. inversion H; subst. simpl.
+    rewrite (with_group_wrapped _ _ _ _ Ew). apply (alloc_node_mono _ _ _ _ _ _ Ea Hw).
+  Qed.
+
+  Lemma do_prepend_mono st l c h st' : do_prepend W st l c h = Some st' -> wrapped st = true -> wrapped st' = true.
+  Proof.
+    unfold do_prepend. intros H Hw. destruct (alloc_node W st l c) as [[[s1 g] n]|] eqn:Ea; [|discriminate].
+    destruct (with_group s1 g _) as [s2|] eqn:Ew; [|discriminate]. inversion H; subst. simpl.
+    rewrite (with_group_wrapped _ _ _ _ Ew). apply (alloc_node_mono _ _ _ _ _ _ Ea Hw).
+  Qed.
+
+  Lemma do_insert_mono st l c hb h st' : do_insert W chkR chkI chkO st l c hb h = Some st' -> wrapped st = true -> wrapped st' = true.
+  Proof.
+    unfold do_insert. intros H Hw. destruct (get_list st l) as [o|]; [|discriminate].
+    destruct (classify chkR chkI chkO st o (get_reg st hb)); try discriminate; try (apply (do_append_mono _ _ _ _ _ H Hw)).
+    destruct (alloc_node W st l c) as [[[s1 g] n0]|] eqn:Ea; [|discriminate].
+    destruct (get_group s1 g); [|discriminate]. destruct (nth_error (heap g0) n); [|discriminate].
+    destruct (with_group s1 g _) as [s2|] eqn:Ew; [|discriminate]. inversion H; subst. simpl.
+    rewrite (with_group_wrapped _ _ _ _ Ew). apply (alloc_node_mono _ _ _ _ _ _ Ea Hw).
+  Qed.
+
+  Lemma traverse_mono rec (HM : MonoRec rec) k m st l st' a b :
+    traverse chkR chkI chkO behav rec k m st l = Some (st', a, b) -> wrapped st = true -> wrapped st' = true.
+  Proof.
+    unfold traverse. intros H Hw. destruct (get_list st l) as [o|]; [|discriminate].
+    destruct (get_group st (lg o)); [|discriminate]. apply (trav_mono rec HM _ _ _ _ _ _ _ _ _ _ _ H Hw).
+  Qed.
+
+  Lemma step_mono rec (HM : MonoRec rec) k st c st' :
+    core c = true -> step W chkR chkI chkO behav rec k st c = Some st' -> wrapped st = true -> wrapped st' = true.
+  Proof.
+    intros Hc H Hw. destruct c; try discriminate; simpl in H.
+    - apply (do_append_mono _ _ _ _ _ H Hw).
+    - apply (do_prepend_mono _ _ _ _ _ H Hw).
+    - apply (do_insert_mono _ _ _ _ _ _ H Hw).
+    - destruct (do_remove_handle chkR chkI chkO st l (get_reg st h)) as [[s1 b]|] eqn:E; [|discriminate].
+      inversion H; subst. simpl. rewrite (do_remove_handle_wrapped _ _ _ _ _ E). exact Hw.
+    - destruct (do_owns chkR chkI chkO st l (get_reg st h)); [|discriminate]. inversion H; subst. exact Hw.
+    - destruct (do_empty st l); [|discriminate]. inversion H; subst. exact Hw.
+    - destruct (traverse chkR chkI chkO behav rec k (VInvoke a) st l) as [[[s1 a1] b1]|] eqn:E; [|discriminate].
+      inversion H; subst. apply (traverse_mono rec HM _ _ _ _ _ _ _ E Hw).
+    - destruct (traverse chkR chkI chkO behav rec k VEach st l) as [[[s1 a1] b1]|] eqn:E; [|discriminate].
+      inversion H; subst. apply (traverse_mono rec HM _ _ _ _ _ _ _ E Hw).
+    - destruct (traverse chkR chkI chkO behav rec k (VEachIf k0) st l) as [[[s1 a1] b1]|] eqn:E; [|discriminate].
+      inversion H; subst. simpl. apply (traverse_mono rec HM _ _ _ _ _ _ _ E Hw).
+    - destruct (traverse chkR chkI chkO behav rec k (VHas c) st l) as [[[s1 a1] b1]|] eqn:E; [|discriminate].
+      inversion H; subst. simpl. apply (traverse_mono rec HM _ _ _ _ _ _ _ E Hw).
+    - destruct (traverse chkR chkI chkO behav rec k VAny st l) as [[[s1 a1] b1]|] eqn:E; [|discriminate].
+      inversion H; subst. simpl. apply (traverse_mono rec HM _ _ _ _ _ _ _ E Hw).
+    - destruct (traverse chkR chkI chkO behav rec k (VRemoveL c) st l) as [[[s1 a1] b1]|] eqn:E; [|discriminate].
+      inversion H; subst. simpl. apply (traverse_mono rec HM _ _ _ _ _ _ _ E Hw).
+  Qed.
+
+  (* ---------- sequences and the whole run ---------- *)
+
+  Lemma seqx_mono rec (HM : MonoRec rec) k : forall cs st st',
+    core_prog cs -> seqx W chkR chkI chkO behav rec k st cs = Some st' -> wrapped st = true -> wrapped st' = true.
+  Proof.
+    induction cs as [|c r IH]; intros st st' Hc H Hw; simpl in H.
+    - inversion H; subst; exact Hw.
+    - inversion Hc; subst.
+      destruct (step W chkR chkI chkO behav rec k st c) as [s1|] eqn:E; [|discriminate].
+      apply (IH s1 st'); auto. apply (step_mono rec HM _ _ _ _ H2 E Hw).
+  Qed.
+
+  Lemma seqx_sim rec srec (HS : SimRec rec srec) (HM : MonoRec rec) k : forall cs st sst st',
+    core_prog cs -> R st sst -> seqx W chkR chkI chkO behav rec k st cs = Some st' -> wrapped st' = false ->
+    exists sst', s_seqx behav srec sst cs = Some sst' /\ R st' sst' /\ Ext st sst st' sst'.
+  Proof.
+    induction cs as [|c r IH]; intros st sst st' Hc HR H Hw; simpl in H.
+    - inversion H; subst. exists sst. split; [reflexivity|]. split; [exact HR|apply ext_refl].
+    - inversion Hc; subst.
+      destruct (step W chkR chkI chkO behav rec k st c) as [s1|] eqn:E; [|discriminate].
+      assert (Hw1 : wrapped s1 = false).
+      { apply not_true_false. intro X. rewrite (seqx_mono rec HM k r s1 st' H3 H X) in Hw. discriminate. }
+      destruct (step_sim rec srec k st sst c s1 HS HM HR H2 E Hw1) as [ss1 [A [B C]]].
+      destruct (IH s1 ss1 st' H3 B H Hw) as [sst' [D [F G]]].
+      exists sst'. simpl. rewrite A. split; [exact D|]. split; [exact F|].
+      apply (ext_trans W st sst s1 ss1 st' sst' HR B C G).
+  Qed.
+
+  Lemma run_mono : forall fuel, MonoRec (run W chkR chkI chkO behav fuel).
+  Proof.
+    induction fuel as [|f IH]; intros st cs st' Hc H Hw; simpl in H; [discriminate|].
+    apply (seqx_mono _ IH (S f) cs st st' Hc H Hw).
+  Qed.
+
+  Lemma run_sim : forall fuel, SimRec (run W chkR chkI chkO behav fuel) (s_run behav fuel).
+  Proof.
+    induction fuel as [|f IH]; intros st sst cs st' Hc HR H Hw; simpl in H; [discriminate|].
+    simpl. apply (seqx_sim _ _ IH (run_mono f) (S f) cs st sst st' Hc HR H Hw).
   Qed.
 End Sim.
